@@ -441,7 +441,7 @@ def run_case(case):
     try:
         resolved = simprop.run_steps(sim, case, EXTRA)
         own = lambda: [v for v in sim.all_viol if v[0] in (PROP, 'C01')]
-        if not own():
+        if not own() and not sim.viol:      # a monitor of another property stopped the case: state is tainted, no closing verdict
             # closing phase: everyone back, healed; lagging / restarted nodes must reach equality (entries or snapshot)
             op_opengate(0, 0, 0)
             sim.blocked = set()
